@@ -135,6 +135,27 @@ def _replay(job):
             return {"src": xa, "idx": m, "ret": x, "n_in": len(xa)}
         attempt("get_downsampled_scatter", scatter,
                 [e + 1 for e in case["eligible"]], case["required"])
+        # log scale: points that are finite but not positive are invalid
+        # on a logarithmic axis (same abstract validity pattern)
+        xl = xa.copy()
+        for i, pnt in enumerate(pts):
+            if not pnt["valid"]:
+                xl[i + 1] = 0.0 if i % 2 else -3.0 - i
+        yl = np.where(np.isfinite(yb), yb, 1.0)
+        dsl = dclab.new_dataset({"area_um": xl, "deform": yl})
+        dsl.filter.manual[0] = False
+        dsl.filter.manual[-1] = False
+        dsl.apply_filter()
+
+        def scatter_log():
+            x, y, m = dsl.get_downsampled_scatter(
+                xax="area_um", yax="deform", downsample=n, xscale="log",
+                remove_invalid=rm, ret_mask=True)
+            if not np.array_equal(y, yl[m], equal_nan=True):
+                raise AssertionError("y altered")
+            return {"src": xl, "idx": m, "ret": x, "n_in": len(xl)}
+        attempt("get_downsampled_scatter", scatter_log,
+                [e + 1 for e in case["eligible"]], case["required"])
         # event limit: all qualifying events are eligible
         ds2 = dclab.new_dataset({"area_um": xa, "deform": yb})
         ds2.filter.manual[0] = False
@@ -253,7 +274,7 @@ def main(tier, seed, replay=None):
             seen.add(key)
             cases.append(c)
     if q:
-        cases = cases[seed % 2::2]
+        cases = par.sample(cases, 2, seed)
     jobs = [(c, VARIANTS[(i + seed) % 4]) for i, c in enumerate(cases)]
     if not q:
         jobs = [(c, v) for c in cases for v in VARIANTS]
